@@ -218,6 +218,7 @@ def main():
         else:
             b.confidence_threshold = run.get("threshold", 0)
         b.n_jobs = run.get("n_jobs", 1)
+        b.remove_aam = bool(run.get("remove_aam", True))     # public attribute; False keeps the input's atom maps
         b.cache = bool(run.get("cache_dir"))
         b.cache_dir = run.get("cache_dir")
         inputs = run["inputs"]
